@@ -572,6 +572,126 @@ def enumerate_histories(base, D, M, first=None, deep=False):
                     yield derivs, [m1, m2]
 
 
+# ---------------------------------------------------------------------------------------------
+# collections: copy / normalize / JSON of collections in every state (no members, members over adaptive bins that grew
+# separately), and independence of what comes back
+# ---------------------------------------------------------------------------------------------
+
+COLL_KINDS = ["empty_static", "empty_adaptive", "static", "adaptive", "adaptive_grown_by_create", "adaptive_grown_by_member_fill"]
+COLL_DERIVE = ["copy", "normalize_all", "normalize_bins", "json", "sum"]
+COLL_MUTATE = ["member_fill_inside", "member_fill_beyond", "create_beyond", "member_imul", "member_dtype", "member_rename", "source_member_fill_beyond"]
+
+
+def make_collection(kind):
+    from physt.binnings import FixedWidthBinning, StaticBinning
+    from physt.types import HistogramCollection
+
+    adaptive = "adaptive" in kind
+    b = FixedWidthBinning(bin_width=1.0, bin_count=3, bin_times_min=0, adaptive=True) if adaptive else StaticBinning(np.array([0.0, 1.0, 2.0, 3.0]))
+    col = HistogramCollection(binning=b, name="col", title="T")
+    if kind.startswith("empty"):
+        return col
+    col.create("a", np.array([0.5, 1.5, 1.5]))
+    col.create("b", np.array([2.5]))
+    if kind == "adaptive_grown_by_create":
+        col.create("c", np.array([0.5, 6.5]))
+    elif kind == "adaptive_grown_by_member_fill":
+        col["a"].fill(7.5)
+    return col
+
+
+def coll_snap(col):
+    return {"name": col.name, "title": col.title, "n": len(col.histograms), "members": [snap(m) for m in col.histograms]}
+
+
+def eval_collection(case):
+    from physt.io import parse_json
+
+    kind, derive, mutate = case["kind"], case["derive"], case["mutate"]
+    src = make_collection(kind)
+    out = []
+    sig = f"collection|{'adaptive' if 'adaptive' in kind else 'static'}|{derive}"
+
+    def do_derive():
+        if derive == "copy":
+            return src.copy()
+        if derive == "normalize_all":
+            return src.normalize_all()
+        if derive == "normalize_bins":
+            return src.normalize_bins()
+        if derive == "json":
+            return parse_json(src.to_json())
+        return src.sum()
+
+    refusable = (derive in ("normalize_all",) and (kind.startswith("empty") or False)) or (derive == "normalize_bins" and kind.startswith("empty"))
+    before = coll_snap(src)
+    res = call(do_derive)
+    if not res.ok:
+        if not refusable and not (derive == "normalize_all" and any(float(m.total) == 0 for m in src.histograms)):
+            out.append(V("must_succeed", f"{sig}|raises|{type(res.exc).__name__}", case, "a derived collection / histogram", res.describe()))
+        if derive not in ("copy", "json", "normalize_all", "normalize_bins", "sum"):
+            return out
+        # (bringing grown members to common bins is allowed to add empty bins to the source's members, nothing else)
+        return out
+    d = res.value
+    members_d = list(d.histograms) if hasattr(d, "histograms") else [d]
+    for k, m in enumerate(members_d + list(src.histograms)):
+        pr = wellformed(m)
+        if pr:
+            out.append(V("wellformed", f"{sig}|malformed_after_derivation", case, "well-formed", [k, pr]))
+            return out
+    if derive in ("copy", "json") and hasattr(d, "histograms"):
+        if len(d.histograms) != len(src.histograms) or any(not (a == b) for a, b in zip(d.histograms, src.histograms)):
+            out.append(V("copy_equal", f"{sig}|not_equal_to_source", case, [float(m.total) for m in src.histograms], [float(m.total) for m in d.histograms]))
+        if (d.name, d.title) != (src.name, src.title):
+            out.append(V("copy_equal", f"{sig}|meta", case, [src.name, src.title], [d.name, d.title]))
+    s_src = coll_snap(src)
+    s_d = [snap(m) for m in members_d]
+
+    def mutate_it():
+        target = d if mutate != "source_member_fill_beyond" else src
+        ms = list(target.histograms) if hasattr(target, "histograms") else [target]
+        if mutate == "create_beyond":
+            if not hasattr(target, "histograms"):
+                return "n/a"
+            target.create("new", np.array([1.5, 9.5]))
+            return None
+        if not ms:
+            return "n/a"
+        m = ms[0]
+        if mutate in ("member_fill_inside",):
+            m.fill(1.5)
+        elif mutate in ("member_fill_beyond", "source_member_fill_beyond"):
+            m.fill(11.5)
+        elif mutate == "member_imul":
+            m *= 2
+        elif mutate == "member_dtype":
+            m.set_dtype(np.float64)
+        else:
+            m.name = "renamed"
+        return None
+
+    r = call(mutate_it)
+    if r.ok and r.value == "n/a":
+        return out
+    if not r.ok:
+        out.append(V("usable", f"{sig}|{mutate}|raises|{type(r.exc).__name__}", case, "accepted", r.describe()))
+        return out
+    if mutate == "source_member_fill_beyond":
+        now = [snap(m) for m in members_d]
+        if now != s_d:
+            out.append(V("independent", f"{sig}|derived_changed_by_source", case, "unchanged", [diff(a, b) for a, b in zip(s_d, now) if a != b][:1]))
+    else:
+        if coll_snap(src) != s_src:
+            out.append(V("independent", f"{sig}|source_changed_by_derived|{mutate}", case, "unchanged", "changed"))
+    for k, m in enumerate(members_d + list(src.histograms) + (list(d.histograms) if hasattr(d, "histograms") else [])):
+        pr = wellformed(m)
+        if pr:
+            out.append(V("wellformed", f"{sig}|malformed_after|{mutate}", case, "well-formed", [k, pr]))
+            break
+    return out
+
+
 def units(tier, seed):
     thorough = tier == "thorough"
     us = []
@@ -584,11 +704,27 @@ def units(tier, seed):
                 us.append({"base": base, "first": first, "D": 2, "M": 2})
                 if base in ("1d_static", "1d_adaptive", "2d_static", "2d_adaptive"):
                     us.append({"base": base, "first": first, "D": 3, "M": 1})
+    us.append({"collections": True})
     return us
 
 
 def run_unit(unit, ctx):
     p = Partial()
+    if unit.get("collections"):
+        case = None
+        for kind in COLL_KINDS:
+            for derive in COLL_DERIVE:
+                for mutate in COLL_MUTATE:
+                    case = {"collection": True, "kind": kind, "derive": derive, "mutate": mutate}
+                    vs = eval_collection(case)
+                    p.ev(True)
+                    p.states += 3
+                    p.transitions += 2
+                    p.traces += 1
+                    p.outcome("collection:" + derive)
+                    p.extend(vs)
+        p.sample(case)
+        return p
     k = 0
     for derivs, muts in enumerate_histories(unit["base"], unit["D"], unit["M"], first=unit["first"]):
         if unit["D"] == 2 and unit["M"] == 1 and len(derivs) < 2 and False:
@@ -616,6 +752,8 @@ def run_unit(unit, ctx):
 
 
 def replay(case):
+    if case.get("collection"):
+        return eval_collection(case)
     derivs = [tuple(d) for d in case["derivations"]]
     muts = [(t, n, tuple(a) if isinstance(a, list) else a) for t, n, a in case["mutations"]]
     return run_history(case["base"], derivs, muts)[0]
